@@ -18,7 +18,7 @@ from ..gen import c01_misc as MI
 from ..gen import c01_rs as RS
 
 PID = "C01"
-COQ_HEADER = ("From Coq Require Import List NArith ZArith.\nFrom SK Require Import lib.Tok lib.LGraph model.C01_Model model.C02_Model model.C01_Opts model.C01_String model.C01_Attrs model.C01_CleanWc model.C01_Rsmi model.C01_Nbrs model.C01_Conv model.C01_G2M model.C01_Rewrite model.C01_DecRaw model.C01_Prem model.C01_Builders.\nFrom Coq Require Import String.\n"
+COQ_HEADER = ("From Coq Require Import List NArith ZArith.\nFrom SK Require Import lib.Tok lib.LGraph model.C01_Model model.C02_Model model.C01_Opts model.C01_String model.C01_Attrs model.C01_CleanWc model.C01_Rsmi model.C01_Nbrs model.C01_Conv model.C01_G2M model.C01_Rewrite model.C01_DecRaw model.C01_Prem model.C01_Builders proof.C01_UnmappedDefs.\nFrom Coq Require Import String.\n"
               "Import ListNotations.\nOpen Scope Z_scope.\n")
 SHARD = 400
 IMPL_TIMEOUT = 1500
@@ -105,11 +105,14 @@ TESTED_NOT_PROVED = [
     "C01_rewriting_invariant / C01_written_invariant): evaluated by the proved-sound executable test rewrittenb on every rw-premise case",
     "implicit_hydrogen and h_to_explicit conserve hydrogen atoms + hcounts on the implementation itself: oracle clauses implicit-h-balance (every ih case "
     "without bridging hydrogens) and eh-h-balance (every str-eh-* case)",
+    "CU (premise of C01_unmapped_string): the unmapped form of a side RDKit reads (maps removed, RemoveHs, canonical SMILES of the fragments) is a "
+    "function of the unmapped molecule graph - its instances are evaluated on every str-unm case (proved-sound test unmapped_eqb on the model side, "
+    "RDKit's unmapped forms on the implementation side) and by the oracle clauses string-unmapped / string-unmapped-graph",
     "W0: what MolToSmiles returns never contains '>' (premise of C01_rsmi_string_roundtrip / _explicit): oracle clause string-format on every rs-str "
     "case with default options, and the str-* oracle requires exactly one '>>' in what its_to_rsmi writes",
     "implicit_hydrogen keeps every non-hydrogen atom's total H on graphs whose hydrogens have one bond: oracle on every ih case (theorem C01_implicit_hydrogen for all well-formed graphs)",
 ]
-LEVEL_TEXT = ("Machine-checked proof (Coq, 60 theorems) over an executable model of ITSConstruction.construct/ITSGraph and its_decompose: for all well-formed "
+LEVEL_TEXT = ("Machine-checked proof (Coq, 64 theorems) over an executable model of ITSConstruction.construct/ITSGraph and its_decompose: for all well-formed "
               "reactant/product graphs on the same node set with positive bond orders, decompose(construct(G,H)) returns exactly G and H "
               "(atoms, element, aromaticity, hydrogen count, charge, atom_map = node id, every bond with its order) - for every value of "
               "ignore_aromaticity, balance_its, store and attributes_defaults; the ITS has exactly the union of the nodes and bonds, every bond "
@@ -129,7 +132,9 @@ LEVEL_TEXT = ("Machine-checked proof (Coq, 60 theorems) over an executable model
               "the property's quantifier is proved inside the model: construct / decompose / the writer's input are extensional, invariant under "
               "re-rooting and fragment reordering of the SMILES (hypothesis tested on real RDKit readings by a proved-sound executable check) and "
               "reversal swaps the halves; the MolToGraph object is a state machine whose .graph is the last successful transform_store; GraphToMol "
-              "and its_decompose are modelled with every absent-attribute branch.")
+              "and its_decompose are modelled with every absent-attribute branch. Round 6: the clause 'same unmapped reactants and products' is a theorem - "
+              "at the graph level at full strength (what is handed to the writer is the input up to the identity on everything except atom_map, the same "
+              "unmapped molecules with the same fragments), at the string level relative to the written-out RDKit contracts W0, P1-P4, CU.")
 LEVEL_NOTE = ("Two defects found and repaired: rsmi_to_its(explicit_hydrogen=True) double-counted hydrogens on the product side "
               "(its_to_rsmi returned None for 346/346 corpus reactions), /repo commit 61e730e; implicit_hydrogen deleted hydrogens without a "
               "non-hydrogen neighbour (a lone H+ / H / H- spectator vanished from both sides of its_to_rsmi's output whenever another hydrogen was in "
@@ -178,6 +183,8 @@ def impl(case):
         return RS.obs_dec_raw(case)
     if k == "str-prem":
         return RS.obs_prem(case)
+    if k == "str-unm":
+        return RS.obs_unm(case, _unmapped_side)
     if k == "api-misc":
         return MI.obs(case)
     if k == "attrs":
@@ -237,6 +244,8 @@ def coq_case(case):
             return RS.coq_dec_raw(case)
         if k == "str-prem":
             return RS.coq_prem(case)
+        if k == "str-unm":
+            return RS.coq_unm(case)
         if k == "api-misc":
             return MI.coq(case)
         if k == "attrs":
@@ -534,6 +543,17 @@ def oracle(case):
         return []
     if case.get("kind") == "rs-str":
         return RS.oracle_rs(case, R.well_formed)
+    if case.get("kind") == "str-unm":
+        # the property's clause itself, at the graph level (theorems C01_unmapped_graph / C01_unmapped_string): for a balanced reaction with
+        # unique maps each side its_to_rsmi wrote is the same unmapped molecule (maps dropped, bonded hydrogens folded) as the input side
+        # and RDKit gives it the same unmapped form
+        if RS.obs_prem(case)[:1] != [True]:
+            return []
+        o = RS.obs_unm(case, _unmapped_side)
+        if o != [True, True]:
+            return [dict(clause="string-unmapped-graph", detail="its_to_rsmi(rsmi_to_its(r)) does not have the same unmapped reactants / products "
+                         "as r = %r (graph comparison per side: %r)" % (case["rsmi"], o))]
+        return []
     if case.get("kind") == "api-misc":
         return MI.oracle(case)
     if case.get("kind") == "attrs":
@@ -605,7 +625,7 @@ def neighbours(case, rng):
 def nontrivial(case, obs):
     if case.get("kind") == "ih":
         return bool(case["pres"]) and any(a["element"] == "H" for _, a in case["G"]["nodes"])
-    if case.get("kind") in ("m2g", "g2r", "g2m", "api-misc", "attrs", "cwc", "rs-split", "rs-str", "conv-hist", "g2m-abs", "rw-premise", "dec-raw", "str-prem"):
+    if case.get("kind") in ("m2g", "g2r", "g2m", "api-misc", "attrs", "cwc", "rs-split", "rs-str", "conv-hist", "g2m-abs", "rw-premise", "dec-raw", "str-prem", "str-unm"):
         return False
     if case.get("kind", "").startswith("hist-"):
         return True
@@ -646,7 +666,7 @@ def distribution(cases, obss):
             if k.startswith("hist-"):
                 extra["history_steps"] = extra.get("history_steps", 0) + len(c["steps"])
                 continue
-            if k in ("g2r", "g2m", "api-misc", "attrs", "cwc", "rs-split", "rs-str", "conv-hist", "g2m-abs", "rw-premise", "dec-raw", "str-prem"):
+            if k in ("g2r", "g2m", "api-misc", "attrs", "cwc", "rs-split", "rs-str", "conv-hist", "g2m-abs", "rw-premise", "dec-raw", "str-prem", "str-unm"):
                 if k == "rw-premise":
                     extra["rw_premise_holds"] = extra.get("rw_premise_holds", 0) + (o == [True, True] or o == [1, 1])
                 if k == "rs-str":
@@ -1170,6 +1190,7 @@ def gen_histories(rsmi_cases, rng, n_str, n_pair):
     extra += RS.gen_rw_premise(rs, rng, max(40, n_str))
     extra += RS.gen_dec_raw(rng, max(120, n_pair))
     extra += RS.gen_prem([c["rsmi"] for c in rsmi_cases if c.get("kind") in ("corpus", "rw-reroot", "corpus-malformed")] + list(HAND_STR) + list(DEGEN_STR), rng, _unmap_some)
+    extra += RS.gen_unm([c["rsmi"] for c in rsmi_cases if c.get("kind") == "corpus"] + [c["rsmi"] for c in rsmi_cases if c.get("kind") == "rw-reroot"][:20] + list(HAND_STR))
     return HI.gen_hist_str(rs, rng, n_str) + HI.gen_hist_pair(pairs, rng, n_pair, _opts) + extra
 
 
